@@ -146,7 +146,7 @@ static std::vector<BasePair>& bases() {
     sim::Rng r(4242);
     for (int b = 0; b < 3; b++) {
         std::vector<InCell> cells; int n = b + 1;
-        for (int k = 0; k < n; k++) { InCell c; if (b == 0) { TriMesh m; m.V = {V3(0, 0, 0), V3(1, 0, 0), V3(0, 1, 0), V3(0, 0, 1)}; m.F = {{0, 2, 1}, {0, 1, 3}, {1, 2, 3}, {0, 3, 2}}; c = poly_from_tri(m); } else if (k == 0) c = poly_from_tri(cube_mesh(1)); else if (k == 1) c = poly_cube(r); else c = poly_from_tri(icosphere(0)); c.type = (b == 2) ? k : 0; for (auto& p : c.m.V) p = p * 5e-6 + V3(2e-5 * k, 0, 0); cells.push_back(c); }
+        for (int k = 0; k < n; k++) { InCell c; if (b == 0) { TriMesh m; m.V = {V3(0, 0, 0), V3(1, 0, 0), V3(0, 1, 0), V3(0, 0, 1)}; m.F = {{0, 2, 1}, {0, 1, 3}, {1, 2, 3}, {0, 3, 2}}; c = poly_from_tri(m); } else if (k == 0) c = poly_from_tri(cube_mesh(1)); else if (k == 1) c = (b == 2) ? poly_from_tri(cube_mesh(2)) : poly_cube(r); else c = poly_from_tri(icosphere(0)); /* base 2 has triangulation off: every cell must already be triangulated for the pair to be valid */ c.type = (b == 2) ? k : 0; for (auto& p : c.m.V) p = p * 5e-6 + V3(2e-5 * k, 0, 0); cells.push_back(c); }
         BasePair bp; bp.vtk = write_vtk(cells, "%.6g");
         XmlSpec xs; xs.mesh_path = "@MESH@"; xs.out_path = "@OUT@"; xs.triangulate = (b == 1) ? 1 : 0; xs.lmin = (b == 1) ? 2.5e-6 : 1e-6; xs.ntypes = (b == 2) ? 5 : 2; bp.xml = write_xml(xs);
         if (b == 1) { std::vector<InCell> c2 = {cells[0]}; bp.vtk = write_vtk(c2, "%.6g"); }
@@ -161,16 +161,17 @@ static std::vector<Span> tokens_of(const std::string& s, bool xml) {   // number
     while (i < n) { if (s[i] == '<') { size_t a = i + 1; if (a < n && (s[a] == '/' || s[a] == '?')) a++; size_t b = a; while (b < n && (isalnum((unsigned char)s[b]) || s[b] == '_')) b++; if (b > a) t.push_back({a, b}); while (i < n && s[i] != '>') i++; i++; size_t c = i; while (c < n && s[c] != '<') c++; size_t x = i, y = c; while (x < y && isspace((unsigned char)s[x])) x++; while (y > x && isspace((unsigned char)s[y - 1])) y--; if (y > x && s.compare(x, y - x, "@MESH@") != 0 && s.compare(x, y - x, "@OUT@") != 0) t.push_back({x, y}); i = c; } else i++; }
     return t;
 }
-static const char* REPL[] = {"-1", "0", "4294967296", "99999999999999999999", "1e999", "nan", "abc", ""};
-// the enumeration: for each base b, file f: truncation at every offset; per token: delete, duplicate, 8 replacements; byte flips of the first 400 bytes
+static const char* REPL[] = {"-1", "0", "4294967296", "99999999999999999999", "1e999", "nan", "abc", "", "32768", "65535", "2147483648"};   // (the last three: first values that do not fit a signed / unsigned 16-bit and a signed 32-bit integer)
+static const size_t NREPL = sizeof(REPL) / sizeof(REPL[0]), PER_TOKEN = 2 + NREPL;
+// the enumeration: for each base b, file f: truncation at every offset; per token: delete, duplicate, 11 replacements; byte flips of the first 400 bytes
 struct EnumInfo { std::vector<size_t> start; size_t total = 0; };
-static size_t count_file(const std::string& s, bool xml) { size_t nt = tokens_of(s, xml).size(); return s.size() + nt * 10 + std::min<size_t>(400, s.size()); }
+static size_t count_file(const std::string& s, bool xml) { size_t nt = tokens_of(s, xml).size(); return s.size() + nt * PER_TOKEN + std::min<size_t>(400, s.size()); }
 static const EnumInfo& enum_info() { static EnumInfo E; if (E.total) return E; for (auto& b : bases()) { E.start.push_back(E.total); E.total += count_file(b.vtk, false); E.start.push_back(E.total); E.total += count_file(b.xml, true); } return E; }
 static std::string mutate_one(const std::string& s, bool xml, size_t idx, std::string& desc) {
     if (idx < s.size()) { desc = "truncate@" + std::to_string(idx); return s.substr(0, idx); } idx -= s.size();
     auto T = tokens_of(s, xml);
-    if (idx < T.size() * 10) { Span sp = T[idx / 10]; int k = (int)(idx % 10); std::string tok = s.substr(sp.a, sp.b - sp.a), rep; if (k == 0) { rep = ""; desc = "delete"; } else if (k == 1) { rep = tok + " " + tok; desc = "duplicate"; } else { rep = REPL[k - 2]; desc = std::string("replace->'") + rep + "'"; } desc += " token#" + std::to_string(idx / 10) + " '" + tok.substr(0, 24) + "'"; return s.substr(0, sp.a) + rep + s.substr(sp.b); }
-    idx -= T.size() * 10; std::string o = s; if (idx < o.size()) { o[idx] = (char)(o[idx] ^ (1 << (idx % 7))); desc = "bitflip@" + std::to_string(idx); } return o;
+    if (idx < T.size() * PER_TOKEN) { Span sp = T[idx / PER_TOKEN]; int k = (int)(idx % PER_TOKEN); std::string tok = s.substr(sp.a, sp.b - sp.a), rep; if (k == 0) { rep = ""; desc = "delete"; } else if (k == 1) { rep = tok + " " + tok; desc = "duplicate"; } else { rep = REPL[k - 2]; desc = std::string("replace->'") + rep + "'"; } desc += " token#" + std::to_string(idx / PER_TOKEN) + " '" + tok.substr(0, 24) + "'"; return s.substr(0, sp.a) + rep + s.substr(sp.b); }
+    idx -= T.size() * PER_TOKEN; std::string o = s; if (idx < o.size()) { o[idx] = (char)(o[idx] ^ (1 << (idx % 7))); desc = "bitflip@" + std::to_string(idx); } return o;
 }
 
 RunResult run_w17(const Plan& pl) {
